@@ -645,7 +645,7 @@ rc::Gen<std::vector<double>> gen_weights(size_t n)
 rc::Gen<mcase_t> gen_mcase()
 {
     return rc::gen::mapcat(
-        rc::gen::pair(gen::range<int>(0, 2), rc::gen::oneOf(gen::range<size_t>(1, 12), gen::range<size_t>(1, 100), gen::range<size_t>(1, 2000))),
+        rc::gen::pair(gen::range<int>(0, 2), rc::gen::oneOf(gen::range<size_t>(1, 12), gen::range<size_t>(1, 100), gen::range<size_t>(1, 2000), gen::range<size_t>(2000, 5000))),
         [](const std::pair<int, size_t>& mn)
         {
             const auto mode = mn.first;
@@ -759,8 +759,9 @@ verdict_t check_mcase(const mcase_t& c, ctx_t& ctx)
                            weight_of[c.samples[i]] = c.weights[i];
                        }
 
-                       // two consecutive draws (the second continues the generator's sequence)
-                       for (int draw = 0; draw < 2; ++draw)
+                       // consecutive draws (each continues the generator's sequence); more of them for the large lists, where a
+                       // defect that depends on the value of a single generator output is otherwise too rare to meet
+                       for (int draw = 0, draws = n >= 1000 ? 8 : 2; draw < draws; ++draw)
                        {
                            nano::indices_t selection;
                            const char*     who = "";
@@ -798,6 +799,7 @@ verdict_t check_mcase(const mcase_t& c, ctx_t& ctx)
                        ctx.label_if(has_zero, "weights-with-zeros");
                        ctx.label_if(c.mode == 2 && !has_zero, "weights-all-positive");
                        ctx.label_if(n == 1, "n==1");
+                       ctx.label_if(n > 2000, "n>2000");
                        ctx.nontrivial = c.count > 0 && (c.mode == 2 ? has_zero : (c.count < n || c.mode == 1) && n > 1);
                        return verdict_t::ok();
                    });
